@@ -1,7 +1,8 @@
 /-
 C19 — Date/time to serial-number conversion is exact and monotonic.
 Property theorems only; helper lemmas are in `Lemmas/Date.lean` (calendar),
-`Lemmas/DateSerial.lean` (chunk loop, closed form) and `Lemmas/DateDecode.lean` (decoder, over ℚ).
+`Lemmas/DateSerial.lean` (chunk loop, closed form), `Lemmas/DateCount.lean` (summation day count)
+and `Lemmas/DateDecode.lean` (decoder, over ℚ).
 
 All theorems are about `XlModel.Date` (`Impl` = exact-arithmetic transcription of date.go /
 cell.go:setCellTime over the regenerated `Facts.C19`).  float64 rounding is not modelled: where
@@ -9,6 +10,7 @@ it matters the distance between the stored value `x` and the exact serial is a h
 (`decTol`), and the harness measures the tighter `encTol` on every stored value.
 -/
 import XlModel.Lemmas.DateDecode
+import XlModel.Lemmas.DateCount
 
 namespace XlModel.Props.C19
 open XlModel XlModel.Date XlModel.Date.Impl
@@ -83,8 +85,7 @@ theorem serial_exact (t : Int) (date1904 : Bool) :
 /-- clause "the serial of a calendar date equals the day count Excel defines (including its
 fictitious 1900-02-29)", closed form: from 1900-03-01 on the serial of wall clock (y,m,d,h:mi:s) is
 (days since 1899-12-30) + seconds/86400, i.e. 1900-03-01 ↦ 61; in the 1904 system days since
-1904-01-01.  (That this closed form equals the summation `Spec.excelDayCount` is checked on every
-transcript line, not proved.) -/
+1904-01-01 (see `serial_daycount` for the identification with Excel's summation count). -/
 theorem serial_daycount_closed (y m d h mi s : Int) (date1904 : Bool)
     (hr : if date1904 then -24107 ≤ daysFromCivil y m d else -25508 ≤ daysFromCivil y m d)
     (hh0 : 0 ≤ h) (hm0 : 0 ≤ mi) (hs0 : 0 ≤ s) :
@@ -103,6 +104,66 @@ theorem serial_daycount_closed (y m d h mi s : Int) (date1904 : Bool)
     · omega
     · split <;> omega
   · simp only [if_true] at hr ⊢
+    split <;> omega
+
+/-- clause "the serial of a calendar date equals the day count Excel defines (including its
+fictitious 1900-02-29)": for EVERY valid date from 1900-01-01 (1900 system) / 1904-01-01 (1904 system)
+on, the exact serial is `Spec.excelDayCount` — the number of days of Excel's calendar (1900 a leap
+year) from 1900-01-01 = 1, obtained by summing year and month lengths — resp. `Spec.dayCount1904`,
+plus the seconds of the day / 86400 -/
+theorem serial_daycount (y m d h mi s : Int) (date1904 : Bool) (hv : ValidDate y m d)
+    (hy : if date1904 then 1904 ≤ y else 1900 ≤ y)
+    (hh0 : 0 ≤ h) (hh : h < 24) (hm0 : 0 ≤ mi) (hm : mi < 60) (hs0 : 0 ≤ s) (hs : s < 60) :
+    timeToExcelTimeNs (instantOf { y := y, m := m, d := d, h := h, mi := mi, s := s, ns := 0 }) date1904
+      = Spec.serialSeconds date1904 y m d h mi s * 1000000000 := by
+  obtain ⟨h1, h12, hd1, hdl⟩ := hv
+  obtain ⟨_, e4, emin, eb⟩ := epochs_ok
+  have hms := month_start_nonneg y m h1 h12
+  have hj := jan1_ge y
+  have hday := dfc_day y m d
+  have hl := monthLen_le y m d hdl
+  have hns : nsPerSec = 1000000000 := by decide
+  unfold Spec.serialSeconds
+  rw [serial_exact]
+  unfold instantOf
+  simp only []
+  rw [hns, e4, emin, eb]
+  cases date1904
+  · simp only [Bool.false_eq_true, if_false] at hy ⊢
+    rw [excelDayCount_eq y m d hy h1 h12]
+    have h00 : daysFromCivil 1900 1 1 = -25567 := by decide
+    have hbound : (y = 1900 ∧ m ≤ 2 → daysFromCivil y m d ≤ -25509 ∧ -25567 ≤ daysFromCivil y m d) ∧
+        (¬ (y = 1900 ∧ m ≤ 2) → -25508 ≤ daysFromCivil y m d) := by
+      constructor
+      · intro hc
+        obtain ⟨hy0, hm2⟩ := hc
+        subst hy0
+        have hstart := dfc_month_start 1900 m h1 h12
+        have hmm : m = 1 ∨ m = 2 := by omega
+        rcases hmm with hmm | hmm
+        · subst hmm; simp at hstart; omega
+        · subst hmm
+          have hnl : ¬ isLeap 1900 = true := by decide
+          have h29 : d ≠ 29 := fun h => hnl ((hl.2.2 rfl).2 h)
+          have := (hl.2.2 rfl).1
+          simp at hstart; omega
+      · intro hc
+        by_cases hy0 : y = 1900
+        · subst hy0
+          have := hms.2 (by omega)
+          omega
+        · have := hj.1 (by omega)
+          omega
+    by_cases hc : y = 1900 ∧ m ≤ 2
+    · have hb := hbound.1 hc
+      rw [if_pos hc]
+      split <;> (try split) <;> omega
+    · have hb := hbound.2 hc
+      rw [if_neg hc]
+      split <;> (try split) <;> omega
+  · simp only [if_true] at hy ⊢
+    rw [dayCount1904_eq y m d hy h1 h12]
+    have := hj.2 hy
     split <;> omega
 
 /-- the anchors of the count: 1900-01-01 ↦ 1, 1900-02-28 ↦ 59, 1900-03-01 ↦ 61 (60 is the
